@@ -285,8 +285,8 @@ type c17Job struct {
 	// holds the data key); otherwise the reader is a fresh handler built from
 	// the master key (= the partition after a restart).
 	Reseal bool `json:"reseal"`
-	base    []byte
-	other   []byte
+	base   []byte
+	other  []byte
 }
 
 func (j *c17Job) decode() {
